@@ -2,7 +2,7 @@
 From V.Lib Require Import Base.
 From Coq Require Import String.
 From Coq Require Import Permutation.
-From V.C13 Require Import Model Spec Corr Wf Proofs Proofs2 Proofs3 Proofs4 Proofs5 Bridge Extract Postcard PostcardProofs.
+From V.C13 Require Import Model Spec Corr Wf Proofs Proofs2 Proofs3 Proofs4 Proofs5 Bridge Extract Postcard PostcardProofs Roundtrip.
 From V.Gen Require Import C13Wire.
 From V.Gen Require Import C13Schema.
 Local Open Scope Z_scope.
@@ -186,6 +186,12 @@ Proof. exact minimal_version. Qed.
 (** outside the anchor-normalisation class the value read back is the value written *)
 Theorem C13_roundtrip_exact : forall p, anchor_quirk p = false -> snd (serialize_parse p) = p.
 Proof. exact roundtrip_exact. Qed.
+
+(** ... with the class described explicitly: v1 reads an absent Sapling anchor back as zero and a
+    zero Orchard anchor of an action-less bundle back as absent; v2 elides a bundle that is empty
+    except for a zero anchor.  Everything else is read back exactly. *)
+Theorem C13_roundtrip_exact_explicit : forall p, explicit_quirk p = false -> snd (serialize_parse p) = p.
+Proof. exact roundtrip_exact_explicit. Qed.
 
 (** the anchor-normalisation class is inhabited: a v5 PCZT whose Sapling bundle has no anchor is
     written as v1 and read back with the zero anchor (known finding C13-roundtrip-anchor) *)
